@@ -23,7 +23,7 @@ pub struct M {}
 
 fn max_len(tier: Tier, light: bool) -> u32 {
     if light {
-        5
+        4
     } else if tier == Tier::Thorough {
         9
     } else {
